@@ -18,28 +18,26 @@ Lemma depth_gwrite : forall o f s, depth (gwrite o f s) = depth s.
 Proof. intros; unfold gwrite; destruct (outdir o); reflexivity. Qed.
 Lemma depth_write_samples : forall f n s, depth (write_samples f n s) = depth s.
 Proof. induction n; intros; cbn; auto. Qed.
-Lemma depth_save_sl : forall f s, depth (save_sl f s) = depth s.
+Lemma depth_save_sl : forall v f s, depth (save_sl v f s) = depth s.
 Proof.
-  intros; unfold save_sl. rewrite (if_app _ _ depth). cbn [depth write].
-  rewrite depth_write_samples. cbn. apply if_same.
+  intros; unfold save_sl. destruct (sl_res s), (fix_mean v); cbn; rewrite depth_write_samples; reflexivity.
 Qed.
 Lemma depth_push : forall i s, depth (push i s) = S (depth s). Proof. reflexivity. Qed.
 Lemma depth_pop : forall s, depth (pop s) = pred (depth s). Proof. reflexivity. Qed.
 
 Lemma foreign_write_samples : forall f n s, foreign (write_samples f n s) = foreign s.
 Proof. induction n; intros; cbn; auto. Qed.
-Lemma foreign_save_sl : forall f s, foreign (save_sl f s) = foreign s.
+Lemma foreign_save_sl : forall v f s, foreign (save_sl v f s) = foreign s.
 Proof.
-  intros; unfold save_sl. rewrite (if_app _ _ foreign). cbn [foreign write].
-  rewrite foreign_write_samples. cbn. apply if_same.
+  intros; unfold save_sl. destruct (sl_res s), (fix_mean v); cbn; rewrite foreign_write_samples; reflexivity.
 Qed.
 Lemma sl_write_samples : forall f n s,
   sl_n (write_samples f n s) = sl_n s /\ sl_res (write_samples f n s) = sl_res s.
 Proof. induction n; intros; cbn; auto. Qed.
-Lemma sl_save_sl : forall f s, sl_n (save_sl f s) = sl_n s /\ sl_res (save_sl f s) = sl_res s.
+Lemma sl_save_sl : forall v f s, sl_n (save_sl v f s) = sl_n s /\ sl_res (save_sl v f s) = sl_res s.
 Proof.
-  intros; unfold save_sl. destruct (sl_res s) eqn:E; cbn;
-    destruct (sl_write_samples f (sl_n s) (unlink (FSample f (sl_n s)) s)) as [H1 H2];
+  intros; unfold save_sl. destruct (sl_res s) eqn:E, (fix_mean v); cbn;
+    match goal with |- context [write_samples ?a ?b ?c] => destruct (sl_write_samples a b c) as [H1 H2] end;
     rewrite H1, H2; cbn; auto.
 Qed.
 
@@ -47,7 +45,7 @@ Lemma iteration_eq : forall v o e i s,
   iteration v o e i s =
   if dry o then Ok (if fix_pop v then pop (enter o i s) else enter o i s, false) else
   if negb (sic o) && negb (nsamp o i =? 0) then Err EOther else
-  match report_block v o e i (save_block o i (minimise o i (enter o i s))) with
+  match report_block v o e i (save_block v o i (minimise o i (enter o i s))) with
   | Err x => Err x
   | Ok s1 => Ok (callbacks v o i s1)
   end.
@@ -57,7 +55,7 @@ Lemma depth_enter : forall o i s, depth (enter o i s) = S (depth s).
 Proof. intros; unfold enter. rewrite (if_app _ _ depth). cbn. apply if_same. Qed.
 Lemma depth_minimise : forall o i s, depth (minimise o i s) = depth s.
 Proof. intros; unfold minimise. rewrite (if_app _ _ depth). cbn. apply if_same. Qed.
-Lemma depth_save_block : forall o i s, depth (save_block o i s) = depth s.
+Lemma depth_save_block : forall v o i s, depth (save_block v o i s) = depth s.
 Proof.
   intros; unfold save_block.
   destruct (outdir o); [|reflexivity].
@@ -175,7 +173,7 @@ Proof.
   intros; unfold callbacks.
   destruct (inspect_args o =? 0), (term_given o), (term o i), (fix_pop v); cbn; auto.
 Qed.
-Lemma foreign_save_block : forall o i s, foreign (save_block o i s) = foreign s.
+Lemma foreign_save_block : forall v o i s, foreign (save_block v o i s) = foreign s.
 Proof.
   intros; unfold save_block. destruct (outdir o); [|reflexivity].
   destruct (plot_e o); [destruct (0 <? i)|]; cbn [foreign write]; rewrite ?foreign_save_sl;
@@ -270,12 +268,12 @@ Proof.
   intros H; injection H as <-; reflexivity.
 Qed.
 
-Lemma sl_save_block : forall o i s,
-  sl_n (save_block o i s) = sl_n s /\ sl_res (save_block o i s) = sl_res s.
+Lemma sl_save_block : forall v o i s,
+  sl_n (save_block v o i s) = sl_n s /\ sl_res (save_block v o i s) = sl_res s.
 Proof.
   intros; unfold save_block. destruct (outdir o); [|auto].
   destruct (plot_e o); [destruct (0 <? i)|]; cbn [sl_n sl_res write];
-    match goal with |- context [save_sl ?f ?x] => destruct (sl_save_sl f x) as [H1 H2]; rewrite H1, H2 end;
+    match goal with |- context [save_sl ?w ?f ?x] => destruct (sl_save_sl w f x) as [H1 H2]; rewrite H1, H2 end;
     destruct (export o); auto.
 Qed.
 Lemma sl_gwrite : forall o f s, sl_n (gwrite o f s) = sl_n s /\ sl_res (gwrite o f s) = sl_res s.
@@ -308,7 +306,7 @@ Proof.
   apply sl_report_block in Hr as [R1 R2].
   rewrite (surjective_pairing (callbacks v o i s1)) in H. injection H as <- _.
   destruct (sl_callbacks v o i s1) as [C1 C2].
-  destruct (sl_save_block o i (minimise o i (enter o i s))) as [S1 S2].
+  destruct (sl_save_block v o i (minimise o i (enter o i s))) as [S1 S2].
   rewrite C1, C2, R1, R2, S1, S2. unfold minimise.
   destruct (nsamp o i =? 0); cbn; auto.
 Qed.
@@ -376,38 +374,44 @@ Definition iter_file (o : opts) (i : nat) (g : file) : Prop :=
   g = FEnergyChangePlot (fn o i) \/ g = FMinisanityHist (fn o i) \/ g = FMinisanityPlot (fn o i) \/
   g = FExport (fn o i) \/ exists k, g = FSample (fn o i) k.
 
-Lemma has_save_sl : forall f s g,
-  has (files (save_sl f s)) g = true ->
+Lemma has_save_sl : forall v f s g,
+  has (files (save_sl v f s)) g = true ->
   g = FMean f \/ (exists k, g = FSample f k) \/ has (files s) g = true.
 Proof.
-  intros f s g. unfold save_sl.
-  destruct (sl_res s); cbn [files write]; rewrite ?has_add, has_write_samples; cbn [files unlink];
-    rewrite has_del; intros H.
+  intros v f s g. unfold save_sl.
+  destruct (sl_res s), (fix_mean v); cbn [negb andb files write]; rewrite ?has_add, has_write_samples;
+    cbn [files unlink]; rewrite ?has_del; intros H.
   - destruct H as [->|[(k & _ & ->)|[_ H]]]; eauto.
+  - destruct H as [->|[(k & _ & ->)|[_ H]]]; eauto.
+  - destruct H as [(k & _ & ->)|[_ [_ H]]]; eauto.
   - destruct H as [(k & _ & ->)|[_ H]]; eauto.
 Qed.
 
-Lemma save_sl_keeps : forall f s g,
-  has (files s) g = true -> (forall k, g <> FSample f k) -> has (files (save_sl f s)) g = true.
+Lemma save_sl_keeps : forall v f s g,
+  has (files s) g = true -> (forall k, g <> FSample f k) -> g <> FMean f ->
+  has (files (save_sl v f s)) g = true.
 Proof.
-  intros f s g H Hn. unfold save_sl.
-  assert (H1 : has (files (write_samples f (sl_n s) (unlink (FSample f (sl_n s)) s))) g = true).
-  { apply has_write_samples. right. cbn. apply has_del. split; [apply Hn|assumption]. }
-  destruct (sl_res s); [cbn; apply has_add; auto|assumption].
+  intros v f s g H Hn Hm. unfold save_sl.
+  set (s0 := if negb (sl_res s) && fix_mean v then unlink (FMean f) (unlink (FSample f (sl_n s)) s)
+             else unlink (FSample f (sl_n s)) s).
+  assert (H0 : has (files s0) g = true).
+  { unfold s0. destruct (negb (sl_res s) && fix_mean v); cbn [files unlink]; rewrite ?has_del; auto. }
+  assert (H1 : has (files (write_samples f (sl_n s) s0)) g = true) by (apply has_write_samples; auto).
+  destruct (sl_res s); [cbn [files write]; apply has_add; auto|assumption].
 Qed.
 
 Lemma has_write : forall f s g, has (files (write f s)) g = true <-> (g = f \/ has (files s) g = true).
 Proof. intros; cbn [files write]; apply has_add. Qed.
 
-Lemma has_save_block : forall o i s g,
-  has (files (save_block o i s)) g = true -> iter_file o i g \/ has (files s) g = true.
+Lemma has_save_block : forall v o i s g,
+  has (files (save_block v o i s)) g = true -> iter_file o i g \/ has (files s) g = true.
 Proof.
-  intros o i s g. unfold save_block.
+  intros v o i s g. unfold save_block.
   destruct (outdir o); [|auto].
   set (s1 := if export o then write (FExport (fn o i)) s else s).
   assert (H1 : has (files s1) g = true -> g = FExport (fn o i) \/ has (files s) g = true).
   { unfold s1. destruct (export o); [rewrite has_write|]; auto. }
-  assert (H2 : has (files (save_sl (fn o i) s1)) g = true -> iter_file o i g \/ has (files s) g = true).
+  assert (H2 : has (files (save_sl v (fn o i) s1)) g = true -> iter_file o i g \/ has (files s) g = true).
   { intros H. apply has_save_sl in H as [->|[(k & ->)|H]].
     - left; unfold iter_file; auto 20.
     - left; unfold iter_file; eauto 20.
@@ -417,13 +421,14 @@ Proof.
     auto.
 Qed.
 
-Lemma save_block_keeps : forall o i s g,
-  has (files s) g = true -> (forall f k, g <> FSample f k) -> has (files (save_block o i s)) g = true.
+Lemma save_block_keeps : forall v o i s g,
+  has (files s) g = true -> (forall f k, g <> FSample f k) -> (forall f, g <> FMean f) ->
+  has (files (save_block v o i s)) g = true.
 Proof.
-  intros o i s g H Hn. unfold save_block. destruct (outdir o); [|assumption].
+  intros v o i s g H Hn Hm. unfold save_block. destruct (outdir o); [|assumption].
   assert (H1 : has (files (if export o then write (FExport (fn o i)) s else s)) g = true).
   { destruct (export o); [cbn; apply has_add; auto|assumption]. }
-  apply (save_sl_keeps (fn o i)) in H1; [|apply Hn].
+  apply (save_sl_keeps v (fn o i)) in H1; [|apply Hn|apply Hm].
   destruct (plot_e o); [destruct (0 <? i)|]; cbn [files write]; rewrite ?has_add; auto 10.
 Qed.
 
@@ -464,8 +469,8 @@ Proof.
   assert (Hc : negb (sic o) && negb (nsamp o i =? 0) = false).
   { destruct (sic o) eqn:E; [reflexivity|]. rewrite (Hsic eq_refl i). reflexivity. }
   rewrite Hc.
-  destruct (report_block_ok o e i (save_block o i (minimise o i (enter o i s)))) as (s1 & Hr & Hh).
-  { intros Ho Hi. apply save_block_keeps; [|intros; discriminate].
+  destruct (report_block_ok o e i (save_block fixed o i (minimise o i (enter o i s)))) as (s1 & Hr & Hh).
+  { intros Ho Hi. apply save_block_keeps; [|intros; discriminate|intros; discriminate].
     destruct (files_minimise o i (enter o i s)) as [M1 _]. destruct (files_enter o i s) as [E1 _].
     rewrite M1, E1. apply Hinv; assumption. }
   rewrite Hr. rewrite (surjective_pairing (callbacks fixed o i s1)).
@@ -655,9 +660,9 @@ Proof.
 Qed.
 
 Lemma each_fix_needed :
-  (exists o e r, valid o e /\ run (mkVar false true true) o e = Ok r /\ r_depth r <> depth0 e /\ r_state_loaded r = false) /\
-  (exists o e, valid o e /\ run (mkVar true false true) o e = Err EUnbound) /\
-  (exists o e r, valid o e /\ outdir o = false /\ run (mkVar true true false) o e = Ok r /\ r_foreign r <> []).
+  (exists o e r, valid o e /\ run (mkVar false true true true) o e = Ok r /\ r_depth r <> depth0 e /\ r_state_loaded r = false) /\
+  (exists o e, valid o e /\ run (mkVar true false true true) o e = Err EUnbound) /\
+  (exists o e r, valid o e /\ outdir o = false /\ run (mkVar true true false true) o e = Ok r /\ r_foreign r <> []).
 Proof.
   split; [|split].
   - exists (mkOpts 3 (fun _ => 2) true false false false false false true true (fun _ => true) false
@@ -671,4 +676,65 @@ Proof.
                    (fun _ => false) 2 (fun _ => false) true false), (mkEnv 1 [] None 1 true false).
     eexists. split; [apply valid_concrete; cbn; auto|].
     split; [reflexivity|]. split; [vm_compute; reflexivity|]. cbn. discriminate.
+Qed.
+
+(* ---- the mean file on disk tells the kind of the saved sample list (fix C27-4) ---- *)
+Lemma has_add_other : forall f g fs, g <> f -> has (add f fs) g = has fs g.
+Proof.
+  intros f g fs Hn. destruct (has fs g) eqn:E.
+  - apply has_add; auto.
+  - destruct (has (add f fs) g) eqn:E2; [|reflexivity].
+    apply has_add in E2 as [->|E2]; congruence.
+Qed.
+Lemma has_write_other : forall f s g, g <> f -> has (files (write f s)) g = has (files s) g.
+Proof. intros; cbn [files write]; apply has_add_other; assumption. Qed.
+Lemma has_gwrite_other : forall o f s g, g <> f -> has (files (gwrite o f s)) g = has (files s) g.
+Proof. intros o f s g H; unfold gwrite; destruct (outdir o); cbn; [apply has_add_other; assumption|reflexivity]. Qed.
+
+Lemma save_sl_mean : forall f s, has (files (save_sl fixed f s)) (FMean f) = sl_res s.
+Proof.
+  intros f s. unfold save_sl. cbn [fix_mean fixed]. rewrite andb_true_r.
+  destruct (sl_res s); cbn [negb].
+  - apply has_write. auto.
+  - destruct (has (files _) (FMean f)) eqn:E; [|reflexivity].
+    apply has_write_samples in E as [(k & _ & Hk)|E]; [discriminate|].
+    cbn [files unlink] in E. apply has_del in E as [E _]. congruence.
+Qed.
+
+Lemma save_block_mean : forall o i s, outdir o = true ->
+  has (files (save_block fixed o i s)) (FMean (fn o i)) = sl_res s.
+Proof.
+  intros o i s Ho. unfold save_block. rewrite Ho.
+  assert (Hs : has (files (save_sl fixed (fn o i) (if export o then write (FExport (fn o i)) s else s))) (FMean (fn o i))
+               = sl_res s).
+  { rewrite save_sl_mean. destruct (export o); reflexivity. }
+  destruct (plot_e o); [destruct (0 <? i)|]; rewrite ?has_write_other by discriminate; exact Hs.
+Qed.
+
+Lemma mean_file_iff_residual : forall o e i s s' b,
+  iteration fixed o e i s = Ok (s', b) -> dry o = false -> outdir o = true ->
+  has (files s') (FMean (fn o i)) = sl_res s'.
+Proof.
+  intros o e i s s' b. rewrite iteration_eq. intros H Hd Ho. rewrite Hd in H.
+  destruct (negb (sic o) && _); [discriminate|].
+  destruct (report_block _ _ _ _ _) as [s1|] eqn:Hr; [|discriminate].
+  rewrite (surjective_pairing (callbacks fixed o i s1)) in H. injection H as <- _.
+  destruct (files_callbacks fixed o i s1) as [C1 _]. destruct (sl_callbacks fixed o i s1) as [_ C2].
+  rewrite C1, C2.
+  pose proof (sl_report_block _ _ _ _ _ _ Hr) as [_ R2]. rewrite R2.
+  destruct (sl_save_block fixed o i (minimise o i (enter o i s))) as [_ S2]. rewrite S2.
+  rewrite <- (save_block_mean o i (minimise o i (enter o i s)) Ho).
+  revert Hr. unfold report_block, glob_set. cbn [fix_global fixed]. rewrite Ho.
+  destruct (negb (i =? 0) && negb _); [discriminate|].
+  intros H; injection H as <-.
+  destruct (plot_m o); rewrite ?has_gwrite_other by discriminate; reflexivity.
+Qed.
+
+Lemma orig_stale_mean :
+  exists o e r, valid o e /\ run orig o e = Ok r /\ r_res r = false /\ has (r_files r) (FMean Latest) = true.
+Proof.
+  exists (mkOpts 2 (fun i => if i =? 0 then 2 else 0) true true false false false false true false (fun _ => true) false
+                 (fun _ => false) 2 (fun _ => false) true false), e_base.
+  eexists. split; [apply valid_concrete; cbn; auto|].
+  split; [vm_compute; reflexivity|]. cbn. auto.
 Qed.
